@@ -18,6 +18,20 @@ def l1_monitor(rec):
     if rec[0] != "tick":
         return []
     _, before, t, after, cmds, now = rec
+    if isinstance(t, TickStepResult) and t.step_name in before.workers and t.step_name in after.workers:
+        # an invocation that is re-run (stale collect snapshot: same slot, CommandRunWorker again) is the SAME attempt of the same
+        # input: its attempt count, first-attempt time and last failure are what they were
+        from workflows.runtime.types.commands import CommandRunWorker
+        from workflows.runtime.types.results import AddCollectedEvent
+        ip0 = next((x for x in before.workers[t.step_name].in_progress if x.worker_id == t.worker_id), None)
+        rerun = any(isinstance(c, CommandRunWorker) and c.step_name == t.step_name and c.event is t.event for c in cmds)
+        if ip0 is not None and rerun and any(isinstance(r, AddCollectedEvent) for r in t.result) \
+                and not any(isinstance(r, StepWorkerFailed) for r in t.result):
+            same = [x for x in after.workers[t.step_name].in_progress if x.event is t.event]
+            if same and not any((x.attempts, x.first_attempt_at) == (ip0.attempts, ip0.first_attempt_at) for x in same):
+                return ["the re-run of a collecting invocation (stale snapshot) of step %s restarted as attempt %s (first attempt at %s); "
+                        "the invocation was attempt %s, first attempt at %s: its retry budget starts over"
+                        % (t.step_name, same[0].attempts, same[0].first_attempt_at, ip0.attempts, ip0.first_attempt_at)]
     if not isinstance(t, TickStepResult) or t.step_name not in before.workers or len(t.result) != 1 \
             or not isinstance(t.result[0], StepWorkerFailed):
         return []
